@@ -22,6 +22,7 @@ GNext == GVote \/ GTally \/ GOverride \/ GActivate \/ GSetPower
 GInit == Init /\ hist = <<>>
 Last == IF hist = <<>> THEN <<>> ELSE hist[Len(hist)]
 GView == <<Last, res, last, cursor, atts, power, compass, epoch, lastEth, effects>>
+GViewB == <<GView, \E i \in DOMAIN hist : hist[i].act = "Rebind">>
 GConstr == Len(hist) <= MaxOps /\ epoch <= MaxEpoch
 EmitCond == Len(hist) >= 3 /\ res \in {"eb", "fail"}
 GNextC == (IF EmitCond THEN PrintT(<<"HIST", ToJson(hist)>>) ELSE TRUE) /\ GNext
@@ -34,5 +35,10 @@ GNextR == (IF EmitCondR THEN PrintT(<<"HIST", ToJson(hist)>>) ELSE TRUE) /\ (GVo
 Pow334 == <<30, 30, 40>>
 GVoteD == \E v \in Vals, c \in Claims : Bonded(v) /\ CNonce[c] = NonceOf(v) + 1 /\ Vote(v, c) /\ H("Vote", [v |-> v, c |-> c])
 GNextD == (IF EmitCondR THEN PrintT(<<"HIST", ToJson(hist)>>) ELSE TRUE) /\ (GVoteD \/ GTallyR \/ GOverride)
+\* "rebind" family: governance restates the token binding (same chain, contract, denom) in the middle of the life of
+\* the bridge; a stutter in the model - deposits of the still registered token must go on being applied
+HasRebind == \E i \in DOMAIN hist : hist[i].act = "Rebind"
+GRebind == ~HasRebind /\ res' = "gov" /\ UNCHANGED <<last, cursor, atts, power, compass, epoch, lastEth, effects, applied, views>> /\ H("Rebind", [x |-> 0])
+GNextB == (IF Len(hist) >= 3 /\ res = "eb" /\ HasRebind THEN PrintT(<<"HIST", ToJson(hist)>>) ELSE TRUE) /\ (GVoteR \/ GTallyR \/ GRebind)
 Emit == Len(hist) = EmitAt => PrintT(<<"HIST", ToJson(hist)>>)
 =============================================================================
